@@ -49,7 +49,7 @@ def history(rng, fam, churn):
     return h
 
 def run(ck):
-    ck.level = "translation_validation"
+    ck.level = "proof"
     ck.cov["rule"] = ("histories of insert / plan+insert_at / prehashed plan / find / find_record / remove / erase / iterate under five hash families "
                       "(constant, identity, low-bit-colliding, mixed, codes equal to 0 and to the tombstone marker), key at offset 0/8/24 in the record, "
                       "uniform and churn generators (live count held between shrink and grow thresholds while fresh keys cycle); per call: status, record, "
